@@ -16,6 +16,7 @@ mod c10;
 mod c11;
 mod c12;
 mod c13;
+mod c13b;
 mod c14;
 mod c15;
 mod c16;
@@ -30,6 +31,7 @@ mod nbdev;
 mod oracle;
 mod macgen;
 mod macsuites;
+mod fakechip;
 mod util;
 
 fn eval(op: &str) -> String {
